@@ -133,6 +133,8 @@ type Feed struct {
 	Timeout  time.Duration
 	// StopAtCrash: as soon as the target crashes the tool is stopped (the process is considered dead).
 	StopAtCrash bool
+	// IdleOnly: nothing is fed; the run ends (gracefully) when Timeout expires, which is then not a time-out.
+	IdleOnly bool
 	// StopAfterReq > 0: the tool is stopped gracefully (context cancelled) once the target has processed that many requests during this Send.
 	StopAfterReq int
 	// AfterEndIdleMs: keep the Send running for this long after the sentinel was executed (idle source).
@@ -256,7 +258,7 @@ func RunSend(ro *syncer.RedisOutput, srv *fake.Server, f Feed) RunResult {
 	case sendErr = <-sendDone:
 		sendReturned = true
 	case <-timer.C:
-		res.TimedOut = true
+		res.TimedOut = !f.IdleOnly
 	}
 	// stop the tool (graceful stop after the sentinel, abrupt otherwise: the target no longer executes anything after a crash)
 	cancel()
